@@ -74,6 +74,18 @@ pub fn forms(ev: Ev, very_long: bool) -> Vec<String> {
                 out.push(format!("{}1{}", format!("{}(", f).repeat(n), ")".repeat(n)));
             }
         }
+        // flat chains whose operands are calls (counters of brackets or calls that are incremented more often than
+        // decremented refuse the n-th call although nothing is nested)
+        for call in ["abs(1)", "sqrt(4)", "pow(2,2)", "mod(7,4)", "max(0,1)", "min(2,1,3)", "avg(1,3)", "med(1,2,3)", "gcd(4,6)", "sin(0)", "floor(1.5)", "root(2,4)", "log(8,2)"] {
+            let name = &call[..call.find('(').unwrap()];
+            let arg_ok = !(ev == Ev::I64 && call.contains('.'));
+            if vocab::func(ev, name).is_some() && arg_ok {
+                out.push(chain("+", &[call], n));
+                if n % 2 == 0 {
+                    out.push(chain("*", &[call], n));
+                }
+            }
+        }
         // juxtaposition chains: one long product, and a long sum of products
         out.push(format!("2{}", "(1)".repeat(n)));
         out.push(chain("+", &["2(3)"], n));
@@ -89,6 +101,22 @@ pub fn forms(ev: Ev, very_long: bool) -> Vec<String> {
     }
     out.sort();
     out.dedup();
+    out
+}
+
+/// Thousands of calls in one flat expression (guards with limits in the thousands). Kept apart from `forms`: only the
+/// properties for which the evaluator's recursion depth on such input is known to be safe use it.
+pub fn huge(ev: Ev) -> Vec<String> {
+    let mut out = Vec::new();
+    for n in [1000usize, 2048, 4096, 4097, 5000] {
+        for call in ["pow(2,2)", "mod(7,4)", "abs(1)", "max(0,1)"] {
+            let name = &call[..call.find('(').unwrap()];
+            if vocab::func(ev, name).is_some() {
+                out.push(chain("+", &[call], n));
+            }
+        }
+        out.push(chain("+", &["1"], n));
+    }
     out
 }
 
